@@ -1462,6 +1462,18 @@ fn execute_multi_thread_files_linewise(stdout: io::Stdout, args: &Opts) {
 	}
 }
 
+/// Format the output of a `--linewise` run from the records of its units (one unit per input line)
+///
+/// Every line is formatted on its own, so that the output is what the lines give one by one, put together in order.
+/// JSON is one document for all lines.
+fn format_linewise(args: &Opts, units: Vec<Vec<Vec<(String,String)>>>) -> String {
+	if args.json {
+		format_output(args, units.into_iter().flatten().collect())
+	} else {
+		units.into_iter().map(|unit| format_output(args, unit)).collect()
+	}
+}
+
 /// Executes commands on lines from stdin, using multi-threaded processing
 ///
 /// This function is used for `--linewise` execution on stdin.
@@ -1486,11 +1498,7 @@ fn execute_linewise(mut stream: Box<dyn BufRead>, args: &Opts) -> String {
 		})
 	.collect();
 	lines.sort_by_key(|(i,_)| *i);
-	let mut fmt_lines = vec![];
-	for (_,mut line) in lines {
-		fmt_lines.append(&mut line);
-	}
-	format_output(args, fmt_lines)
+	format_linewise(args, lines.into_iter().map(|(_,unit)| unit).collect())
 }
 
 /// The pathway for when the `--linewise` flag is set
@@ -1509,8 +1517,8 @@ fn exec_linewise(args: &Opts) {
 				let input = fs::read_to_string(path).unwrap_or_else(complain_and_exit);
 				for line in get_lines(&input) {
 					match execute(args,line, Some(path.clone())) {
-						Ok(mut new_line) => {
-							lines.append(&mut new_line);
+						Ok(new_line) => {
+							lines.push(new_line);
 						}
 						Err(e) => {
 							eprintln!("vicut: {e}");
@@ -1519,10 +1527,10 @@ fn exec_linewise(args: &Opts) {
 					}
 				}
 				if args.json {
-					json_data.push((path.clone(), std::mem::take(&mut lines)));
+					json_data.push((path.clone(), std::mem::take(&mut lines).into_iter().flatten().collect()));
 					continue
 				}
-				let mut output = format_output(args, std::mem::take(&mut lines));
+				let mut output = format_linewise(args, std::mem::take(&mut lines));
 				if args.edit_inplace {
 					if args.backup_files {
 						let extension = args.backup_extension.as_deref().unwrap_or("bak");
@@ -1556,8 +1564,8 @@ fn exec_linewise(args: &Opts) {
 			stream.read_to_string(&mut input).unwrap_or_else(complain_and_exit);
 			for line in get_lines(&input) {
 				match execute(args,line, None) {
-					Ok(mut new_line) => {
-						lines.append(&mut new_line);
+					Ok(new_line) => {
+						lines.push(new_line);
 					}
 					Err(e) => {
 						eprintln!("vicut: {e}");
@@ -1566,7 +1574,7 @@ fn exec_linewise(args: &Opts) {
 				}
 			}
 		}
-		let output = format_output(args, lines);
+		let output = format_linewise(args, lines);
 		writeln!(stdout, "{output}").ok();
 
 	} else if let Some(num) = args.max_jobs {
